@@ -115,9 +115,10 @@ Definition wf_template (lib : list (list N)) (body : statement) : Prop :=
      assigned in DECLARATION order, `c.in_k <== a_k` for positional arguments and
      `c.in_k op_j a_j` for the argument named `in_k`; its value is `c.out` for a
      single output, otherwise the tuple of its outputs in declaration order.
-     Inside loops `c` is an element of a component array indexed by a counter that
-     is 0 before the outermost statement and incremented at the end of every
-     iteration of the innermost enclosing loop.
+     Inside loops `c` is an element of a component array indexed by the counter of
+     the innermost enclosing loop, which is 0 before the outermost statement and
+     incremented at the end of every iteration of that loop; a loop none of whose
+     own components is counted by it (it only encloses other loops) has no counter.
    The names of `c` and of the counters are parameters of the specification.
    [None]: the program is not a valid use of the sugar. *)
 
@@ -146,6 +147,13 @@ Fixpoint all_some {A} (l : list (option A)) : option (list A) :=
   | [] => Some []
   | Some a :: r => option_map (cons a) (all_some r)
   | None :: _ => None
+  end.
+
+(* a declaration of an array whose dimension is the variable [k] *)
+Definition counted_by (k : string) (s : statement) : bool :=
+  match s with
+  | Declaration _ _ _ dims _ => existsb (fun e => match e with Variable_ _ n _ => String.eqb n k | _ => false end) dims
+  | _ => false
   end.
 
 Section Expand.
@@ -313,10 +321,13 @@ Section Expand.
           | Some k =>
               let kv := Variable_ m k [] in
               match xstmt [ArrayAccess kv] b with
-              | Some (b', []) => Some (While m c b', [])
               | Some (b', d) =>
-                  Some (While m c (Block m [b'; Substitution m k [] AssignVar (InfixOp m kv IAdd (Number m 1))]),
-                        [Declaration m VVar k [] true; Substitution m k [] AssignVar (Number m 0)] ++ d)
+                  (* the loop has a counter exactly when a component of its OWN body level (not of a nested
+                     loop, whose components are counted by that loop) is an element of an array indexed by it *)
+                  if existsb (counted_by k) d then
+                    Some (While m c (Block m [b'; Substitution m k [] AssignVar (InfixOp m kv IAdd (Number m 1))]),
+                          [Declaration m VVar k [] true; Substitution m k [] AssignVar (Number m 0)] ++ d)
+                  else Some (While m c b', d)
               | None => None
               end
           | None => None
